@@ -24,7 +24,7 @@ TESTS = {
     "C12": [s1("TestC12_S1Deadlines", 20000, 250000)],
     "C13": [s1("TestC13_S1Sweep", 20000, 250000), s1("TestC13_ClockGate", 6000, 100000)],
     "C14": [s1("TestC14_DrainProtocol", 6000, 150000, timeout_t=2400)],
-    "C15": [s1("TestC15_SeqModel", 4000, 60000), s1("TestC15_Concurrent", 250, 4000, timeout_t=2400)],
+    "C15": [s1("TestC15_SeqModel", 4000, 60000), s1("TestC15_Concurrent", 250, 4000, timeout_t=2400), s1("TestC15_CacheIteration", 150, 3000, timeout_t=2400)],
     "C16": [s1("TestC16_SeqModel", 8000, 150000), s1("TestC16_Concurrent", 150, 3000, timeout_t=2400), s1("TestC16_S3", 4000, 80000, timeout_t=2400)],
     "C17": [s1("TestC17_SeqModel", 20000, 300000), s1("TestC17_Concurrent", 300, 6000, timeout_t=2400), s1("TestC17_S3", 6000, 120000, timeout_t=2400), s1("TestC17_S1ReadBursts", 8000, 120000)],
     "C18": [s1("TestC18_Sketch", 60000, 1500000)],
